@@ -41,7 +41,13 @@ R = Registry(
         "PRIMARY KEY / UNIQUE / CHECK constraints written by the DDL compiler are read back from the statement "
         "text; (R4) SQLite: CREATE INDEX as written (unique, columns, partial WHERE) is read back; (R5) every key "
         "of a reflected foreign key `options` / index `dialect_options` dictionary is an argument the consuming "
-        "constructor accepts.  These are clauses of C15, not the behaviour."
+        "constructor accepts; (R6) SQLite: the CREATE TABLE text declares the primary key exactly once for every "
+        "combination of sqlite_autoincrement / key shape / foreign key on the key column (SQLite's grammar from an "
+        "oracle) and get_pk_constraint reads the same columns back; (R7) PostgreSQL: the referred_schema of a "
+        "reflected foreign key names the schema the referenced table lives in (or None where a schema-less name "
+        "reaches it) for every combination of reflecting schema, target schema and postgresql_ignore_search_path.  "
+        "R2/R3 include names the identifier preparer writes unquoted although they contain a character outside "
+        "[A-Za-z0-9_].  These are clauses of C15, not the behaviour."
     ),
     not_decided=(
         "what a live backend stores and reports (the oracles state the documented catalog formats), column "
@@ -442,7 +448,20 @@ def _compare_fks(tm: TableModel, reflected, dialect: str) -> List[str]:
 
 # ============================================================================================ R2: foreign keys
 
-def _fk_scenarios(actions) -> List[Tuple[str, List[dict], dict]]:
+def _unquoted_special_char(W: World) -> Optional[str]:
+    """a character outside [A-Za-z0-9_] that the dialect's identifier preparer (run on the model) leaves unquoted
+    inside a name: names containing it reach the statement text / the catalog text bare"""
+    for ch in "$#@":
+        name = f"a{ch}b"
+        try:
+            if W.quote(name) == name:
+                return ch
+        except (Unsupported, ModelRaise):
+            return None
+    return None
+
+
+def _fk_scenarios(actions, special: Optional[str] = None) -> List[Tuple[str, List[dict], dict]]:
     """(scenario id, foreign keys, extra table kwargs)"""
     base = {"name": "fk1", "cols": ["pid"], "rtable": "p", "rcols": ["id"]}
     out = []
@@ -461,6 +480,10 @@ def _fk_scenarios(actions) -> List[Tuple[str, List[dict], dict]]:
     out.append(("unnamed+ondelete", [dict(base, name=None, ondelete="CASCADE")], {}))
     out.append(("quoted-names", [{"name": "fk 1", "cols": ["p id"], "rtable": "the p", "rcols": ["the id"],
                                    "ondelete": "CASCADE", "onupdate": "RESTRICT"}], {}))
+    if special:
+        out.append(("unquoted-special-char-names", [{"name": f"fk{special}1", "cols": [f"p{special}id"],
+                                                    "rtable": f"p{special}t", "rcols": [f"the{special}id"],
+                                                    "ondelete": "CASCADE", "deferrable": True}], {}))
     out.append(("composite", [{"name": "fk2", "cols": ["pid", "qid"], "rtable": "p", "rcols": ["id", "id2"],
                                 "onupdate": "CASCADE", "ondelete": "SET DEFAULT"}], {}))
     out.append(("two-constraints", [dict(base, ondelete="CASCADE"),
@@ -496,7 +519,7 @@ def _key(dialect_key: str, method: str, aspect: str) -> str:
     return f"{dialect_key}.{method}:{aspect}"
 
 
-@R.rule("C15-R2", floor=60, template="T-TABLE",
+@R.rule("C15-R2", floor=70, template="T-TABLE",
         desc="every foreign key clause the DDL compiler writes (ON DELETE/UPDATE actions, DEFERRABLE, INITIALLY, MATCH, "
              "names, column lists) is read back by the same dialect's foreign key reflection: writer and reader run on "
              "models; SQLite reads the statement text, PostgreSQL / MySQL the catalog's canonical text (oracle)")
@@ -505,7 +528,7 @@ def r2(ctx):
     actions = fko["actions"]
     # ---- SQLite: the reader parses exactly what the writer wrote
     W = World(ctx, SQLITE)
-    for sid, fks, _ in _fk_scenarios(actions):
+    for sid, fks, _ in _fk_scenarios(actions, _unquoted_special_char(W)):
         key = _key(SQLITE, "get_foreign_keys", f"reads-what-ddl-writes[{sid}]")
         if fko["sqlite"].get("initially_requires_deferrable") and any(
                 f.get("initially") and f.get("deferrable") is None for f in fks):
@@ -542,9 +565,14 @@ def _fk_line(text: str) -> str:
 def _pg_condef(W: World, f: dict) -> str:
     """pg_get_constraintdef() text of a foreign key (oracle catalog_fk_text.json)"""
     o = load("catalog_fk_text.json")["postgresql"]
+    safe = load("pg_search_path.json")["quote_identifier_safe"]
 
     def q(n):
-        return W.quote(n)
+        # the catalog quotes by PostgreSQL's own rule (oracle), not by the rule of /repo's identifier preparer;
+        # keywords: the preparer's answer for an otherwise safe name
+        if re.fullmatch(safe, n) and W.quote(n) == n:
+            return n
+        return '"' + n.replace('"', '""') + '"'
 
     def act(v):
         return re.sub(r"\s+", " ", v.upper()).strip()
@@ -594,7 +622,7 @@ def _first_then_empty(main: "_Result"):
 def _r2_postgresql(ctx, actions):
     W = World(ctx, PG, paramstyle="named", default_schema_name="public", server_version_info=(16, 0))
     L = W.L
-    scen = _fk_scenarios(actions)
+    scen = _fk_scenarios(actions, _unquoted_special_char(W))
     scen.append(("ondelete=SET NULL (col)", [{"name": "fk1", "cols": ["pid"], "rtable": "p", "rcols": ["id"],
                                              "ondelete": "SET NULL (pid)"}], {}))
     scen.append(("match=PARTIAL+onupdate", [{"name": "fk1", "cols": ["pid"], "rtable": "p", "rcols": ["id"],
@@ -687,7 +715,7 @@ def _mysql_world(ctx) -> World:
 def _r2_mysql(ctx, actions):
     W = _mysql_world(ctx)
     L = W.L
-    scen = [s for s in _fk_scenarios(actions)]
+    scen = [s for s in _fk_scenarios(actions, _unquoted_special_char(W))]
     scen.append(("other-schema", [{"name": "fk1", "cols": ["pid"], "rtable": "p", "rcols": ["id"], "rschema": "other",
                                    "ondelete": "CASCADE"}], {}))
     for sid, fks, _ in scen:
@@ -714,9 +742,17 @@ def _r2_mysql(ctx, actions):
 
 # ============================================================================================ R3: SQLite constraints
 
-def _sqlite_constraint_scenarios():
+def _sqlite_constraint_scenarios(special: Optional[str] = None):
     cols = [("id", "INTEGER", False), ("a", "INTEGER", True), ("b c", "INTEGER", True), ("d", "VARCHAR", True)]
     S = []
+    if special:
+        x = special
+        cols.append((f"e{x}1", "INTEGER", True))
+        S.append(("unique:unquoted-special-char-names", "get_unique_constraints",
+                  dict(uniques=[{"name": f"uq{x}1", "cols": [f"e{x}1", "a"]}])))
+        S.append(("check:unquoted-special-char-name", "get_check_constraints",
+                  dict(checks=[{"name": f"ck{x}1", "sqltext": "a > 0"}])))
+        S.append(("pk:unquoted-special-char-name", "get_pk_constraint", dict(pk_name=f"pk{x}1")))
     # (id, reader, kwargs for TableModel, expectation)
     S.append(("unique:unnamed", "get_unique_constraints", dict(uniques=[{"name": None, "cols": ["a"]}])))
     S.append(("unique:named-composite", "get_unique_constraints", dict(uniques=[{"name": "uq_ab", "cols": ["a", "d"]}])))
@@ -739,13 +775,13 @@ def _sqlite_constraint_scenarios():
     return cols, S
 
 
-@R.rule("C15-R3", floor=15, template="T-TABLE",
+@R.rule("C15-R3", floor=18, template="T-TABLE",
         desc="SQLite: names and column lists of the PRIMARY KEY / UNIQUE / CHECK clauses the DDL compiler writes into "
              "CREATE TABLE are read back by get_pk_constraint / get_unique_constraints / get_check_constraints from "
              "that statement text (writer and reader run on models)")
 def r3(ctx):
     W = World(ctx, SQLITE)
-    cols, scen = _sqlite_constraint_scenarios()
+    cols, scen = _sqlite_constraint_scenarios(_unquoted_special_char(W))
     for sid, reader, kw in scen:
         key = _key(SQLITE, reader, f"reads-what-ddl-writes[{sid}]")
         tm = TableModel(W, "c", cols, **kw)
@@ -1556,6 +1592,9 @@ R.mutant("r3-pk-name-only-unquoted", _SQ,
                 ) or result.group(2)''', '''                constraint_name = result.group(2)'''), "C15-R3")
 R.mutant("r3-writer-unique-keyword-key", _CMP,
          sub('''        text = "UNIQUE %s(%s)" % (''', '''        text = "UNIQUE KEY %s(%s)" % ('''), "C15-R3")
+R.mutant("r3-check-name-word-characters-only", _SQ,
+         sub("""                    |\\S+                  # Unquoted: simple_name""",
+             """                    |\\w+                  # Unquoted: simple_name"""), "C15-R3")
 R.mutant("benign-r3-unique-patterns-compiled-renamed", _SQ,
          chain(sub('''            for match in re.finditer(UNIQUE_PATTERN, table_data, re.I):
                 quoted_name, unquoted_name, cols = match.group(1, 2, 3)
